@@ -144,6 +144,9 @@ fn run<T: Flt>(rep: &Report, cli: &Cli) {
     let (qlo, qhi) = if f.mant_bits == 52 { (-330, 310) } else { (-50, 40) };
     run_list::<T>(rep, cli, "SD", &sd_values::<T>(if thorough { 4 } else { 3 }, qlo, qhi));
     run_list::<T>(rep, cli, "INT", &small_int_values::<T>(if thorough { 20 } else { 14 }));
+    // endpoints that are short decimals: k >= kmin keeps the family small (j < 2^(p+1) / 5^kmin)
+    let kmin = if f.mant_bits == 52 { if thorough { 15 } else { 17 } } else if thorough { 2 } else { 4 };
+    run_list::<T>(rep, cli, "ENDPT", &endpoint_values(f, kmin));
 }
 
 fn all32(rep: &Report, cli: &Cli) {
